@@ -381,3 +381,23 @@ Proof.
   exists fl. assert (H : Loader.LdOk fl pats = Loader.load pex_ext pex_q (Parser.fuel_of pex_text) pex_text) by (symmetry; exact E).
   vm_compute in H. injection H as -> ->. repeat split.
 Qed.
+
+(* the text field of `node` statements (the text the interpreters write into the debug attribute "variable name", C15): in
+   the file the loader returns, EVERY `node` statement, at any depth, carries the Display text of its variable - the parser
+   model fills the field with display_variable (compared with `format!("{}", node)` of the real AST by stream C07), and the
+   checker rewrites capture resolutions only, which Display does not read.  The <str as Debug> table is the loader's external
+   x_print (only string constants inside the scope expression of a scoped variable read it). *)
+Theorem loaded_node_text : forall X q fuel text fl pats,
+  Loader.load X q fuel text = Loader.LdOk fl pats ->
+  forall v t l, In (SNode v t l) (file_stmts fl) -> t = display_variable (dpenv_of (Parser.x_print X)) v.
+Proof. exact LoadedFile.loaded_node_text_lemma. Qed.
+
+(* non-vacuity: the `node n` at (10, 4) of the loaded example file carries the text "n" *)
+Example loaded_node_text_nonvacuous :
+  exists fl, Loader.load pex_ext pex_q (Parser.fuel_of pex_text) pex_text = Loader.LdOk fl [[97]; [98]] /\
+    In (SNode (VarU [110] (10, 9)) [110] (10, 4)) (file_stmts fl).
+Proof.
+  destruct (Loader.load pex_ext pex_q (Parser.fuel_of pex_text) pex_text) as [fl pats| | | |] eqn:E; try (vm_compute in E; discriminate).
+  exists fl. assert (H : Loader.LdOk fl pats = Loader.load pex_ext pex_q (Parser.fuel_of pex_text) pex_text) by (symmetry; exact E).
+  vm_compute in H. injection H as -> ->. split; [reflexivity|]. vm_compute. tauto.
+Qed.
